@@ -1,10 +1,10 @@
 SPECIFICATION FairSpec
 CONSTANTS
-  Workers = {w1, w2}
-  MaxThreads = 1
+  Workers = {w1, w2, w3}
+  MaxThreads = 2
   Items = {a, b, c}
   ContItems = {b}
   LateItems = {c}
-  StartMayFail = FALSE
+  StartMayFail = TRUE
 PROPERTIES AllComplete Released
 CHECK_DEADLOCK FALSE
